@@ -257,6 +257,20 @@ func (vc *FnVC) mergeEdges(es []edge, label string) *state {
 			}
 		}
 	}
+	for a, loc := range es[0].st.lvregs {
+		all := true
+		for _, e := range es[1:] {
+			if e.st.lvregs == nil || e.st.lvregs[a] != loc {
+				all = false
+			}
+		}
+		if all {
+			if st.lvregs == nil {
+				st.lvregs = map[*ssa.Alloc]*lval{}
+			}
+			st.lvregs[a] = loc
+		}
+	}
 	// heap overrides
 	names := map[string]bool{}
 	for _, e := range es {
@@ -373,6 +387,9 @@ func (vc *FnVC) enterBlock(fr *frame, b *ssa.BasicBlock) *state {
 		h := vc.freshConst("lv:"+a.Comment, vc.sorts.SortOf(el))
 		vc.assume("true", vc.sorts.RangeOf(el, h))
 		hs.regs[a] = h
+		if hs.lvregs != nil {
+			delete(hs.lvregs, a)
+		}
 	}
 	// loop frame: heap arrays havocked at the head agree with the loop-entry heap except at the listed objects
 	li.frameObjs = nil
@@ -516,6 +533,29 @@ func (vc *FnVC) step(fr *frame, st *state, b *ssa.BasicBlock, ins ssa.Instructio
 		}
 		vc.lockCheck(fr, st, vc.deref(a), true, x)
 		dlv := vc.deref(a)
+		if dlv.alloc != nil && len(dlv.path) == 0 && dlv.anon == "" {
+			if v.lv != nil && v.t == "" && v.lv.heap != "$struct" && !(strings.HasPrefix(v.lv.heap, "C:") && len(v.lv.path) == 0) && !(v.lv.alloc != nil && len(v.lv.path) == 0) {
+				// p := &x.f / &s[i]: the local pointer variable holds a location
+				if st.lvregs == nil {
+					st.lvregs = map[*ssa.Alloc]*lval{}
+				}
+				loc := v.lv
+				if p, ok := fr.prov[x.Val]; ok && p != nil && v.lv.anon != "" {
+					loc = p // an element address: keep the location (reads see the current element, stores reach it)
+				}
+				if loc.anon != "" {
+					vc.unsupported("address of an element of a slice value of unknown provenance kept in a variable")
+				}
+				st.lvregs[dlv.alloc] = loc
+				pos := vc.freshConst("addr", "Int")
+				vc.assume("true", fmt.Sprintf("(> %s 0)", pos))
+				st.regs[dlv.alloc] = pos
+				return
+			}
+			if st.lvregs != nil {
+				delete(st.lvregs, dlv.alloc)
+			}
+		}
 		vc.storeLV(st, dlv, vc.term(fr, st, v))
 		if v.fn != nil && strings.HasPrefix(dlv.heap, "H:") && len(dlv.path) == 0 && dlv.alloc == nil {
 			// remember which function constant this heap term holds at this object (resolves s.step(s, c) after s.step = f)
@@ -862,6 +902,12 @@ func (vc *FnVC) unop(fr *frame, st *state, x *ssa.UnOp) {
 	case token.MUL:
 		vc.nilCheck(fr, st, v, "load", x)
 		lv := vc.deref(v)
+		if lv.alloc != nil && len(lv.path) == 0 && st.lvregs != nil {
+			if loc, ok := st.lvregs[lv.alloc]; ok {
+				fr.vals[x] = val{lv: loc, typ: x.Type()}
+				return
+			}
+		}
 		vc.lockCheck(fr, st, lv, false, x)
 		t := vc.loadLV(st, lv)
 		r := fr.set(vc, x, t)
